@@ -286,6 +286,8 @@ def run(ctx):
         vel = np.array([gen_delta(rng) * 1e-3 for _ in range(n)])
         pv_ref = PosVel(mk(np.hstack([refs, np.array([gen_unit(rng) * 3e3 for _ in range(n)])])), system="trs", ellipsoid=ell)
         pv_e, pv_n, pv_u = (out(x).reshape(-1, 3) for x in (pv_ref.enu_east, pv_ref.enu_north, pv_ref.enu_up))
+        pv_llh = out(pv_ref.pos.llh.val).reshape(-1, 3)     # the latitude/longitude this object uses (trs2llh is C05; its error grows to
+        #                                                     2e-11 rad at 2e7 m height); the frame itself is checked by normal_case
         pvd = PosVelDelta(mk(np.hstack([ds, vel])), system="trs", ref_pos=pv_ref)
         pv_enu = out(pvd.enu.val).reshape(-1, 6)
         pv_back = out(pvd.enu.trs.val).reshape(-1, 6)
@@ -305,12 +307,13 @@ def run(ctx):
                                   how="Position.enu_east/north/up vs columns of Position.enu2trs"))
             normal_case(ell, refs[i], east[i], north[i], up[i], base, f"Position(ref, system={system!r}, ellipsoid={ell.name})")
             normal_case(ell, refs[i], pv_e[i], pv_n[i], pv_u[i], base, f"PosVel([ref_trs, v], system='trs', ellipsoid={ell.name})")
-            for to_trs, dd, oo, how in ((False, ds[i], enu[i], "PositionDelta(d, 'trs', ref_pos=ref).enu"),
-                                        (True, ds[i], trs[i], "PositionDelta(d, 'enu', ref_pos=ref).trs"),
-                                        (False, ds[i], pv_enu[i, :3], "PosVelDelta(dv, 'trs', ref_pos=pv).enu [pos]"),
-                                        (False, vel[i], pv_enu[i, 3:], "PosVelDelta(dv, 'trs', ref_pos=pv).enu [vel]")):
-                rep = dict(base, kind="delta", to_trs=to_trs, d=fl(dd), observed=fl(oo), how=how)
-                fam["delta"].add(emit.pair(emit.b(to_trs), emit.dy(la), emit.dy(lo), dys(dd), dys(oo)), rep)
+            for to_trs, dd, oo, how, (la_, lo_) in (
+                    (False, ds[i], enu[i], "PositionDelta(d, 'trs', ref_pos=ref).enu", (la, lo)),
+                    (True, ds[i], trs[i], "PositionDelta(d, 'enu', ref_pos=ref).trs", (la, lo)),
+                    (False, ds[i], pv_enu[i, :3], "PosVelDelta(dv, 'trs', ref_pos=pv).enu [pos]", pv_llh[i, :2]),
+                    (False, vel[i], pv_enu[i, 3:], "PosVelDelta(dv, 'trs', ref_pos=pv).enu [vel]", pv_llh[i, :2])):
+                rep = dict(base, kind="delta", to_trs=to_trs, d=fl(dd), observed=fl(oo), how=how, lat=float(la_), lon=float(lo_))
+                fam["delta"].add(emit.pair(emit.b(to_trs), emit.dy(la_), emit.dy(lo_), dys(dd), dys(oo)), rep)
                 ctx.case(("delta", to_trs, system, ell.name, fl(refs[i]), fl(dd)), nontrivial=bool(dd.any()), sample=rep if shape == "(n,3)" and i == 1 and tag == "random" else None)
             for dd, bb, how in ((ds[i], back[i], ".enu.trs"), (ds[i], back2[i], ".trs.enu"),
                                 (ds[i], pv_back[i, :3], "posvel .enu.trs [pos]"), (vel[i], pv_back[i, 3:], "posvel .enu.trs [vel]")):
